@@ -103,6 +103,7 @@ class Extractor:
         self.stats = dict(R1=0, R2=0, R3=0, R4=0, R5=0, R6=0, R7=0, R8=0, R9=0)
         self.items = []  # evidence: dict(file,item,sha256,lines,rules)
         self.lifts = []
+        self.missing_lifts = []
 
     def source(self, rel):
         if rel not in self.sources:
@@ -152,7 +153,7 @@ class Extractor:
     def parse_block(self, block):
         """parse the directive block of an EXTRACT."""
         d = dict(ret=None, safety=None, spec=None, loops={}, loopstart={}, loopend={}, inserts=[], substs=[], bodyonly=False,
-                 frm=None, to=None, optional=False, rename=None, pub=False, r4=False, replaces=[])
+                 frm=None, to=None, optional=False, rename=None, pub=False, r4=False, replaces=[], pubfields=False)
         i = 0
 
         def grab(endmarks):
@@ -187,6 +188,8 @@ class Extractor:
                 d["pub"] = True
             elif k == "R4":
                 d["r4"] = True
+            elif k == "PUBFIELDS":
+                d["pubfields"] = True
             elif k == "BODYONLY":
                 d["bodyonly"] = True
             elif k == "RENAME":
@@ -344,12 +347,43 @@ class Extractor:
         body_lo = it["body_open"]
         body_hi = it["body_close"]
 
+        # R1 (visibility): make every field of a struct `pub` (single-file crate)
+        if d["pubfields"] and kind == "struct" and body_lo is not None:
+            q = body_lo + 1
+            at_field_start = True
+            while q < body_hi:
+                t = toks[q]
+                if at_field_start:
+                    if t.kind == "doc":
+                        q += 1
+                        continue
+                    if t.text == "#" and toks[q + 1].text == "[":
+                        q = src.tbl[q + 1] + 1
+                        continue
+                    if t.text != "pub":
+                        o = t.start - base
+                        pieces.append(Piece(o, o, "pub ", "ins"))
+                        bump("R1")
+                    at_field_start = False
+                if t.kind == "punct" and t.text in "([{<" and q in src.tbl:
+                    q = src.tbl[q]
+                elif t.kind == "punct" and t.text == ",":
+                    # generic commas inside <..> are not tracked by the table: only split at depth of the body
+                    at_field_start = self._angle_depth0(toks, body_lo + 1, q)
+                q += 1
+
         # substitutions
         for (rule, occ, allocc, old, new) in d["substs"]:
             want = token_texts(old)
             if not want:
                 raise UnitError("empty SUBST pattern")
             hits = find_seq(toks, want, a, b + 1)
+            if not hits and rule in ("R5", "R6", "R9") and not allocc:
+                # the lifted expression is gone from the code: verify what is there instead (a removed
+                # or rewritten expression must still meet the function's contract; an unsupported
+                # construct is rejected by Verus => undecided)
+                self.missing_lifts.append("%s: %s lift anchor not found in %s %s: `%s`" % (rel, rule, kind, name, " ".join(want)[:100]))
+                continue
             if not hits:
                 raise LostAnchor("%s: SUBST pattern not found in %s %s: %s" % (rel, kind, name, " ".join(want)[:120]))
             if allocc:
@@ -515,7 +549,7 @@ class Extractor:
                 cut_hi = toks[body_hi].start - base
 
         # apply pieces (check no overlap between subst ranges; inserts inside subst are errors)
-        pieces.sort(key=lambda p: (p.off, 0 if p.kind == "ins" else 1))
+        pieces.sort(key=lambda p: (p.off, 0 if p.kind == "ins" else 1, -p.end))
         res = []
         cur = 0 if cut_lo is None else cut_lo
         limit = len(orig) if cut_hi is None else cut_hi
@@ -559,6 +593,24 @@ class Extractor:
                                sha256=hashlib.sha256(want_text.encode()).hexdigest()[:16],
                                rules=rules, under_contract=bool(d["spec"] or d["safety"])))
         return text, d["safety"], name
+
+    def _angle_depth0(self, toks, lo, q):
+        """is the comma at q outside any <...> generic argument list (scanning from the field start)?"""
+        # find start of the current field: previous ',' at angle depth 0 or lo
+        d = 0
+        k = q - 1
+        while k >= lo:
+            t = toks[k]
+            if t.kind == "punct" and t.text == ">" and toks[k - 1].text != "-":
+                d += 1
+            elif t.kind == "punct" and t.text == "<":
+                d -= 1
+                if d < 0:
+                    return False
+            elif t.kind == "punct" and t.text == "," and d == 0:
+                break
+            k -= 1
+        return d == 0
 
     def _depth0(self, src, k, o):
         """is token k at the same nesting depth as token o (k<o), with no group closing between"""
